@@ -8,4 +8,7 @@ PROP = {
          'Stringers and errors, unencodable reflected values); non-trivial = ≥2 fields+With levels; distinct = distinct canonical op JSON',
  'assumptions': ['strconv float text, time.Format text, base64 text and encoding/json output of reflected values are opaque leaves supplied by the harness (stdlib only)',
                  'sub-encoder functions are parameters: the op carries what each configured function appended, observed on a recording PrimitiveArrayEncoder'],
+ 'technique': 'Lean 4: induction over nested encoder call trees (stream = compositional output = rendered tree), escape automaton lemma over all 256 bytes; tie: byte-level correspondence + regenerated JsonAdd/LevelText tables',
+ 'level_text': 'jsonLine_wellformed is proved for every configuration, entry, With-chain and field tree of the model (unbounded depth); the model is compared byte-for-byte with the real encoder on every run and judged by an independent json.Valid/one-line oracle.',
+ 'level_note': 'Assumes the stdlib leaves (strconv float text, time.Format, base64, encoding/json output) are well-formed tokens as stated in ScalarOK/PrimOK; sub-encoder results are parameters.',
 }
